@@ -295,6 +295,9 @@ pub struct Case {
     pub ops: Vec<BuildOp>,
     pub body: BodySpec,
     pub allow_compression: bool,
+    /// see c15::SHORT_WRITES: the transport accepts at most that many bytes per write call (0 = all)
+    #[serde(default)]
+    pub short_write: u8,
 }
 
 pub struct C07;
@@ -572,11 +575,11 @@ non-trivial = a body or >= 1 param or a custom program with >= 2 writes";
             urlgen::url_spec(true, false),
             proptest::collection::vec(build_op(), 0..7),
             body_spec(),
-            prop::bool::weighted(0.8),
+            (prop::bool::weighted(0.8), crate::props::c15::short_write_strategy()),
         )
-            .prop_map(|(method, url, ops, body, allow_compression)| {
+            .prop_map(|(method, url, ops, body, (allow_compression, short_write))| {
                 let method = if method == "CONNECT" { "CONNECTX".to_string() } else { method };
-                Case { method, url, ops, body, allow_compression }
+                Case { method, url, ops, body, allow_compression, short_write }
             })
             .boxed()
     }
@@ -584,6 +587,8 @@ non-trivial = a body or >= 1 param or a custom program with >= 2 writes";
     fn check(case: &Case, ctx: &mut Ctx) -> Outcome {
         let url = case.url.render();
         let method = http::Method::from_bytes(case.method.as_bytes()).expect("generated method is a token");
+        let _short = crate::transport::short_writes(crate::props::c15::short_write_bytes(case.short_write));
+        ctx.label_if(case.short_write != 0, "short-writing-transport");
         let (_guard, net) = serve_scripts(vec![ok_response()]);
         let mut model: HeaderModel = BTreeMap::new();
         let mut params: Vec<(String, String)> = case.url.query.clone().unwrap_or_default();
